@@ -222,7 +222,9 @@ def run_c35(out, tier, seed):
     for kind in ("Any", "Realistic"):
         f8 = pool_witness(out, seed, "C2", kind) or f8
     if tier != "quick":
-        f8 = pool_witness(out, seed, "C3", "Realistic") or f8
+        # (with 3 usable addresses and count 3 no lookup leaves an address over, so only answers that repeat an
+        # address produce the duplicate there)
+        f8 = pool_witness(out, seed, "C3", "Any") or f8
     for c in cfgs:
         pool_replay(out, seed, c, f8)
     for name in (["W4", "W2"] if tier == "quick" else ["W4", "W2", "W6"]):
